@@ -229,6 +229,7 @@ type Registry struct {
 	vals       map[int]any
 	errs       map[int]error
 	lastNil    [8]int // latest token whose payload is the typed nil pointer of type i
+	nilPtrTok  int    // token registered for the typed nil *payloadPtr (0: none)
 	NoTypedNil bool   // families whose tokens are not sequential keep to data-carrying payloads
 }
 
@@ -280,6 +281,9 @@ func (r *Registry) Payload(tok int) any {
 // SetPayload registers a specific Go value as the payload of token tok.
 func (r *Registry) SetPayload(tok int, v any) {
 	r.mu.Lock()
+	if p, ok := v.(*payloadPtr); ok && p == nil {
+		r.nilPtrTok = tok
+	}
 	r.vals[tok] = v
 	r.mu.Unlock()
 }
@@ -305,6 +309,8 @@ func (r *Registry) Observe(v any) (tok int, same bool) {
 	case *payloadPtr:
 		if x != nil {
 			tok = x.Tok
+		} else if r.nilPtrTok != 0 {
+			return r.nilPtrTok, true // the registered typed nil pointer
 		}
 	case map[string]any:
 		if t, ok := x["tok"].(int); ok {
